@@ -15,6 +15,17 @@ CLAIMED = {
          "Trusted: CPython's ast parser, the rule tables in sa/props/c10.py, the CFG/dominator engine. Assumes requests "
          "of one sid are processed one at a time (overlap is C12), the file system keeps what was written (C13), and the "
          "websocket library delivers in order. Values of payloads are not examined."),
+ "C11": ("abstract interpretation over the exact 5-bit flag domain (interprocedural) + dominance/post-dominance rules",
+         "Decides, for the six client operations, that every durable write, flag store and message send can execute only "
+         "when the prerequisite flags of that operation hold (exact finite domain of flag pairs, interprocedural through "
+         "the Service methods, upload flags havocked at awaits), that refusals are effect-free, that no predicate result is "
+         "dropped and the configuration validity check guards service creation, that the key file has a single guarded "
+         "writer and no deleter, that getters/setters agree on one bit per flag, that each flag store is followed by "
+         "persistence and that an alias cannot be overwritten. A structural all-paths argument about the guard structure.",
+         "Trusted: CPython's ast parser, the row table (prerequisites per operation, frozen from frontend/README.md and the "
+         "property) in sa/props/c11.py, the CFG engine. Assumes each operation runs on a Service freshly loaded from disk "
+         "and that only the echo handlers run concurrently with an awaiting operation. Behaviour against a live server and "
+         "byte contents of files are not examined."),
 }
 NA_REASON = "check under construction in this session (see DESIGN.md section 3); not yet registered"
 NA = {}
